@@ -1076,11 +1076,19 @@ def cc_tables(ctx):
     adt = P.adts.get('semantic::function::CallingConvention')
     variants = [v['name'] for v in adt['variants']] if adt else []
     t2 = {}
+    scrut_bad = []
     for s in fb.switches():
         c = s['cond']
         if c[0] == 'call' and c[2] and len(c[2]) == 2:
             lit = [x for x in c[2] if x[0] == 'str']
             if lit:
+                # what is compared is the string that was given (a normalised spelling would accept names outside the table)
+                for o_ in [x for x in c[2] if x[0] != 'str']:
+                    o_ = strip(expand(fb, o_))
+                    while o_[0] == 'call' and o_[2] and re.search(r'(Deref>::deref|::as_ref|::borrow|::as_str)$', o_[1]):
+                        o_ = strip(o_[2][0])
+                    if o_[0] != 'arg':
+                        scrut_bad.append(show(o_)[:80])
                 for lab, tgt in s['edges']:
                     if lab is True:
                         for x in fb.exits():
@@ -1090,10 +1098,12 @@ def cc_tables(ctx):
                                     t2[lit[0][1]] = v[1].split('::')[-1]
     inv = {v: k for k, v in t1.items()}
     ok = sorted(t1) == sorted(variants) and len(variants) >= 7 and t2 == inv
-    ctx.ob(['C16', 'C05', 'C04'], 'R-TABLE', 'cc|inverse-tables', ok, 'as_str covers every variant of CallingConvention and from_str is exactly its inverse: %s' % t1, loc(fa.span))
+    ctx.ob(['C16', 'C05', 'C04', 'C06'], 'R-TABLE', 'cc|inverse-tables', ok, 'as_str covers every variant of CallingConvention and from_str is exactly its inverse: %s' % t1, loc(fa.span))
     abis = rustc_abis()
     bad = [v for v in t1.values() if v not in abis] if abis else ['(cannot obtain rustc ABI list)']
     ctx.ob(['C16', 'C13'], 'R-TABLE', 'cc|known-to-rustc', not bad, 'every calling-convention string is an ABI name rustc accepts (rustc --print=calling-conventions): unknown %s' % bad, loc(fa.span))
+    ctx.ob(['C16'], 'R-TABLE', 'cc|compares-the-given-name', not scrut_bad and len(t2) >= 7,
+           'from_str compares the name as it was written with the table entries (no normalisation in front of the table): %s' % sorted(set(scrut_bad))[:2], loc(fb.span))
     e = [x for x in fb.exits() if x['kind'] == 'err_own']
     ctx.ob(['C16'], 'R-TABLE', 'cc|unknown-is-error', len(e) == 1, 'from_str returns Err for any other string', loc(fb.span))
 
